@@ -192,7 +192,8 @@ AbsMapOp(e, A, A2, ph) ==
              rest == {z \in A : <<z[1], z[2], z[3], z[4]>> \notin Y}
          IN AR({}, IF e.n = 1 THEN {} ELSE {z[2] : z \in rest} \cup {z[4] : z \in rest},
                /\ NoDupSeq(e.y) /\ Y \subseteq AY
-               /\ (IF e.j < 0 \/ e.j >= Cardinality(A) THEN Len(e.y) = Cardinality(A) ELSE Len(e.y) = e.j)
+               \* (n = 2: after j calls of next() the rest is consumed by fold - everything is yielded)
+               /\ (IF e.j < 0 \/ e.j >= Cardinality(A) \/ e.n = 2 THEN Len(e.y) = Cardinality(A) ELSE Len(e.y) = e.j)
                /\ HintsOK(e.r, Cardinality(A))
                /\ e.pn = "")
     [] e.op = "into_iter" ->
